@@ -137,7 +137,20 @@ def run(ctx):
                and not handler_catches(h, ["PermissionError"])
                and any(isinstance(c.func, ast.Attribute) and c.func.attr == "_parse_smaps"
                        for b in h.body for c in calls_in(b)) for h in hs)
-    if good:
+    # ... and the errors can actually REACH that handler: what escapes the roll-up
+    # reader (decorators included) still contains the raw ENOENT and ESRCH
+    from ..core.escape import Escape
+    esc = {(x.cls, x.origin) for x in Escape(repo, A, "linux").escapes(ru)}
+    raw = {c for c, o in esc if o in ("process", "alive") and c in ("ProcessLookupError",
+                                                                   "FileNotFoundError")}
+    if good and raw != {"ProcessLookupError", "FileNotFoundError"}:
+        lost = sorted({"ProcessLookupError", "FileNotFoundError"} - raw)
+        ctx.fail("C13.R2", "rollup-fallback", ru.file, ru.node.lineno, ru.qual,
+                 f"{lost} raised while reading smaps_rollup no longer reach(es) "
+                 f"memory_full_info()'s fallback handler (it is translated inside "
+                 f"{ru.qual}, decorators {ru.decorators}): a live process whose roll-up "
+                 f"file fails that way gets NoSuchProcess instead of the per-mapping sums")
+    elif good:
         ctx.ok("C13.R2", "rollup-fallback", sample="ESRCH/ENOENT on smaps_rollup -> smaps")
     else:
         ctx.fail("C13.R2", "rollup-fallback", mf.file, mf.node.lineno, mf.qual,
